@@ -222,3 +222,29 @@ def render_lines(case):
     for i, page in enumerate(pages):
         walk(page, i, [], False)
     return res
+
+
+def avoid(case):
+    """avoid_collisions(context, LineBox stub, containing block stub, outer=False) between float stubs, Fractions.
+    case: dict(shapes=[[side, x, y, mw, mh]], cbx, cbw, dir, bw, bh, y) -> [position_x, position_y, available_width]"""
+    from weasyprint.layout.float import avoid_collisions
+    from weasyprint.formatting_structure import boxes
+
+    def shape(side, x, y, mw, mh):
+        s = SimpleNamespace(position_x=Fraction(x), position_y=Fraction(y), style={'float': side})
+        s.margin_width = lambda mw=Fraction(mw): mw
+        s.margin_height = lambda mh=Fraction(mh): mh
+        return s
+    ctx = SimpleNamespace(excluded_shapes=[shape(*s) for s in case['shapes']])
+    box = object.__new__(boxes.LineBox)
+    box.style = {'float': 'none'}
+    box.position_x, box.position_y = Fraction(0), Fraction(case['y'])
+    box.width, box.height = Fraction(case['bw']), Fraction(case['bh'])
+    for side in ('top', 'right', 'bottom', 'left'):
+        setattr(box, 'margin_' + side, Fraction(0))
+        setattr(box, 'padding_' + side, Fraction(0))
+        setattr(box, 'border_%s_width' % side, Fraction(0))
+    cb = SimpleNamespace(width=Fraction(case['cbw']), style={'direction': case['dir']})
+    cb.content_box_x = lambda: Fraction(case['cbx'])
+    x, y, av = avoid_collisions(ctx, box, cb, outer=False)
+    return [str(Fraction(x)), str(Fraction(y)), str(Fraction(av))]
